@@ -28,7 +28,7 @@ RULE = ("plans = curve x replica set (backend / env / entropy) x operation histo
 FAULT_KINDS = ["entropy_zero", "entropy_ones", "entropy_multiple_of_n", "entropy_cancels_next_scalar", "entropy_short",
                "reblind_mid_history", "rebuild_mid_history", "native_disabled_by_env", "native_enabled_by_env",
                "prod_blinding_overwritten"]
-PROBES = ["verify_reached_infinity", "add_P_plus_minusP", "add_P_plus_P", "add_with_infinity", "mul_k_multiple_of_n",
+PROBES = ["neighbour_curve_same_prime_same_base_point", "verify_reached_infinity", "add_P_plus_minusP", "add_P_plus_P", "add_with_infinity", "mul_k_multiple_of_n",
           "mul_negative_k", "mul_k_ge_n", "sign_first_nonce_rejected", "r_ge_n_rejected", "s_ge_n_rejected",
           "malleated_s_accepted", "recover_signer_found", "nonce_x_ge_n", "lift_no_point", "ecdh", "keysign", "keyverify_forged_der", "sign_with_callers_nonce_source", "add_operand_representation", "verify_same_signature_against_keys_in_turn",
           "replicas>=3", "pure_replica_on_256bit", "openssl_replica", "libsecp256k1_replica"]
@@ -95,6 +95,14 @@ def gen_plan(rng, tier, index, config=None):
     toys = mec.toy_curves()
     if config == "toy":
         C = rng.pick(toys)
+        neighbour = None
+        if rng.chance(0.15):
+            # another generator was built earlier in this process over the same prime and the same base point, on another curve
+            fp, fas = rng.pick(mec.TOY_THROUGH_1_1)
+            a1 = rng.pick(fas)
+            a2 = rng.pick([x for x in fas if x != a1])
+            C = mec.toy_through_1_1(fp, a1)
+            neighbour = mec.toy_through_1_1(fp, a2).params()
         curve = C.params()
         replicas = [{"id": "pa", "kind": "pure"}, {"id": "pb", "kind": "pure"}]
         nsteps = rng.between(6, 40 if tier == "thorough" else 24)
@@ -292,8 +300,10 @@ def gen_plan(rng, tier, index, config=None):
             kind, hexbytes = _entropy(r, n, nxt)
             steps.append({"op": "rebuild", "rep": rep["id"], "entropy": hexbytes, "entropy_kind": kind})
             steps.append({"op": "gmul", "k": nxt})
-    return {"world": NAME, "config": {"name": config, "curve": curve, "replicas": replicas,
-                                      "arithmetic_only": arithmetic_only}, "steps": steps}
+    cfg_out = {"name": config, "curve": curve, "replicas": replicas, "arithmetic_only": arithmetic_only}
+    if config == "toy" and neighbour:
+        cfg_out["neighbour"] = neighbour
+    return {"world": NAME, "config": cfg_out, "steps": steps}
 
 
 # ---------------------------------------------------------------------------------------------
@@ -362,6 +372,24 @@ def execute(plan, ctx):
             raise HarnessError("toy curve in plan is not a prime-order group")
     reps = {}
     ctx.step = -1
+    if cfg.get("neighbour"):
+        # a generator on a neighbouring curve (same prime, same base point, other a, b, n) is built and used first
+        NC = mec.MCurve.from_params(cfg["neighbour"])
+        if not (NC.on_curve(NC.G) and NC.mul_unreduced(NC.n, NC.G) is None and mec._is_prime(NC.n)):
+            raise HarnessError("neighbour curve in plan is not a prime-order group")
+        ctx.probe("neighbour_curve_same_prime_same_base_point")
+        try:
+            ng = _build({"id": "nb", "kind": "pure"}, NC, cfg["neighbour"], "00", ctx)
+            for k in (0, 1, 2, 3, NC.n - 1, NC.n + 2):
+                got = _pt(ng * k)
+                if got != NC.mul_unreduced(k, NC.G):
+                    ctx.violate("C02", "gmul:*", {"rep": "nb", "k": k, "curve": NC.name, "got": str(got)})
+                    raise Abort()
+        except Abort:
+            raise
+        except Exception as e:
+            ctx.violate("C02", "generator-construction-raised", {"rep": "nb", "exc": type(e).__name__, "msg": str(e)[:200]})
+            raise Abort()
     for rep in cfg["replicas"]:
         try:
             g = _build(rep, C, cfg["curve"], rep.get("entropy", "00"), ctx)
